@@ -218,3 +218,67 @@ theorem lastWrite_split (pre post : List WriteOp) (w : WriteOp) (q : Int) (x : B
   · rw [h]; rfl
 
 end Amoco.Loader
+
+namespace Amoco.Loader
+
+open Amoco.Memory
+
+/-! ## the first item of a read at a mapped address -/
+
+/-- reading at a mapped address: the first item of the result is a non-empty value taken from the
+    object that holds the address (never a bottom, never empty). -/
+theorem read_head_mapped (z : Zone) (wf : z.WF) (a : Int) (n : Nat) (hn : 0 < n) (d : ByteDesc)
+    (hd : z.abs a = some d) :
+    ∃ v en rest, z.read a n = Item.data v en :: rest ∧ 0 < v.len := by
+  obtain ⟨wfm, hc⟩ := wf
+  have habs : absL z.map a = some d := hd
+  unfold Zone.read
+  rw [hc]
+  unfold readL
+  cases hl : locate (starts z.map) a with
+  | none =>
+    have h1 := locateM_none z.map a wfm hl
+    have : absL z.map a = none := absL_none_of z.map a (fun o ho => Or.inl (h1 o ho))
+    rw [this] at habs; cases habs
+  | some i =>
+    obtain ⟨pre, x, post, hm, hlen, hx, hpost⟩ := locateM_some z.map a i wfm hl
+    have hz : (z.map.zip (starts z.map)).drop i = (x, x.vaddr) :: zipS post := by
+      rw [zip_starts, hm, ← hlen]
+      simp [zipS]
+    rw [hm] at wfm habs
+    obtain ⟨wf1, wf2, h12⟩ := (zoneWF_append pre (x :: post)).mp wfm
+    obtain ⟨hxl, hxp, _⟩ := (zoneWF_cons x post).mp wf2
+    have hfin : a < x.fin := by
+      by_cases hge : a < x.fin
+      · exact hge
+      · exfalso
+        have : absL (pre ++ x :: post) a = none := by
+          apply absL_none_of
+          intro o ho
+          rcases List.mem_append.mp ho with ho | ho
+          · right; have := h12 o ho x List.mem_cons_self; omega
+          · rcases List.mem_cons.mp ho with ho | ho
+            · subst ho; right; omega
+            · left; exact hpost o ho
+        rw [this] at habs; cases habs
+    simp only
+    rw [hz, readLoop]
+    have hn0 : ¬ n = 0 := by omega
+    simp only [hn0, dite_false]
+    have hcont : x.contains a = true := (contains_iff x a).mpr ⟨hx, hfin⟩
+    have ho : (a - x.vaddr).toNat < x.data.len := by
+      have := Mo.fin_eq x
+      have hl2 : x.len = x.data.len := rfl
+      omega
+    obtain ⟨v, hv, hvm⟩ := DD.getpart_spec x.data (a - x.vaddr).toNat n ho
+    have hr : x.read a n = (some v, n - v.len) := by
+      unfold Mo.read
+      rw [hcont, if_pos rfl, hv]
+    rw [hr]
+    refine ⟨v, x.data.endian, _, rfl, ?_⟩
+    have hlen2 : v.len = ((x.data.memBytes.drop (a - x.vaddr).toNat).take n).length := by
+      rw [← hvm, Val.memBytes_length]
+    rw [hlen2, List.length_take, List.length_drop, DD.memBytes_length]
+    omega
+
+end Amoco.Loader
